@@ -315,6 +315,10 @@ func mutateDef(def string) []string {
 		}
 		if strings.HasPrefix(l, "MSG: ") {
 			out = append(out, join(strings.TrimPrefix(l, "MSG: ")), join(l, l))
+			// the marker without a type name, in every spelling; the definition cut right after the marker
+			out = append(out, join("MSG:\n"), join("MSG: \n"), join("MSG:\t\n"), join("MSG:"), join("MSG"), join("MSG: /\n"), join("MSG: pkga/\n"))
+			cut := strings.Join(lines[:li], "")
+			out = append(out, cut+"MSG: ", cut+"MSG:", cut+"MSG")
 		}
 	}
 	return out
@@ -322,7 +326,7 @@ func mutateDef(def string) []string {
 
 // C19: ROS 1 message definitions parse to the right tree, and always terminate.
 func C19(r *chk.Run) {
-	r.Rule("(a) every type graph over a top-level type plus up to D dependency types drawn from {pkga/P, pkgb/P, pkgb/Q, std_msgs/Header}, up to F fields per type, field type in {int32, string, each dependency referred to exactly-qualified / unqualified-same-package / as Header}, array suffix none/[]/[3] on the first field, 6 decorations (plain, trailing comment, tabs and blanks, constant line, blank+comment lines, comment glued to the field name), INCLUDING cyclic graphs; acyclic graphs must parse to exactly the generating tree; (b) every string of length <= L over {a [ ] / space newline = # 1}; (d) deterministic deep and wide graphs: each of the 16 primitive types x array suffix x 6 decorations; chains Top->L1->...->L5 of depth 1..5 across two packages with every admissible reference form and array suffix per level, a primitive sibling before or after the reference, 3 leaf kinds; diamonds (two paths to one shared type, dependency definitions out of reference order); homonyms (pkga/P and pkgb/P with different bodies, each referred to by its bare name from inside its own package) - each must parse to exactly the generating tree; (c) every single-token mutation (bracket deleted/duplicated/swapped, separator shortened/removed/duplicated, MSG: prefix dropped) of the valid definitions of (a) at small scope; every input runs in an isolated worker (ulimit -v 8 GiB, 64 MiB stack cap, 30 s per input): outcome must be ok or error; distinct = inputs run")
+	r.Rule("(a) every type graph over a top-level type plus up to D dependency types drawn from {pkga/P, pkgb/P, pkgb/Q, std_msgs/Header}, up to F fields per type, field type in {int32, string, each dependency referred to exactly-qualified / unqualified-same-package / as Header}, array suffix none/[]/[3] on the first field, 6 decorations (plain, trailing comment, tabs and blanks, constant line, blank+comment lines, comment glued to the field name), INCLUDING cyclic graphs; acyclic graphs must parse to exactly the generating tree; (b) every string of length <= L over {a [ ] / space newline = # 1}, and over the separator/marker alphabet {= newline M S G : space a}; (d) deterministic deep and wide graphs: each of the 16 primitive types x array suffix x 6 decorations; chains Top->L1->...->L5 of depth 1..5 across two packages with every admissible reference form and array suffix per level, a primitive sibling before or after the reference, 3 leaf kinds; diamonds (two paths to one shared type, dependency definitions out of reference order); homonyms (pkga/P and pkgb/P with different bodies, each referred to by its bare name from inside its own package) - each must parse to exactly the generating tree; (c) every single-token mutation (bracket deleted/duplicated/swapped, separator shortened/removed/duplicated, MSG: prefix dropped, MSG: marker without a type name in every spelling, definition cut right after the marker) of the valid definitions of (a) at small scope; every input runs in an isolated worker (ulimit -v 8 GiB, 64 MiB stack cap, 30 s per input): outcome must be ok or error; distinct = inputs run")
 	r.Assume("an unqualified reference is generated only where the resolution rule makes it valid (same package as the enclosing type, or Header for std_msgs/Header)")
 	quickSets := [][]int{{}, {1}, {2}, {3}, {4}, {1, 2}, {2, 3}, {1, 4}, {3, 4}}
 	fullSets := append(append([][]int{}, quickSets...), []int{1, 2, 3}, []int{2, 3, 4}, []int{1, 3, 4})
@@ -344,6 +348,36 @@ func C19(r *chk.Run) {
 				want = expectTree(types, 0)
 			}
 			return []iso.Outcome{parseGuard("ParseMessageDefinition/graph", def, want)}
+		}}
+	}
+	// the same over the separator/marker alphabet {= newline M S G : space a}
+	alpha2 := []byte{'=', '\n', 'M', 'S', 'G', ':', ' ', 'a'}
+	str2 := func(i uint64, maxLen int) string {
+		for l := 0; l <= maxLen; l++ {
+			n := uint64(1)
+			for k := 0; k < l; k++ {
+				n *= uint64(len(alpha2))
+			}
+			if i < n {
+				b := make([]byte, l)
+				for k := 0; k < l; k++ {
+					b[k] = alpha2[i%uint64(len(alpha2))]
+					i /= uint64(len(alpha2))
+				}
+				return string(b)
+			}
+			i -= n
+		}
+		return ""
+	}
+	strFam2 := func(maxLen int) fam {
+		total, n := uint64(0), uint64(1)
+		for l := 0; l <= maxLen; l++ {
+			total += n
+			n *= uint64(len(alpha2))
+		}
+		return fam{fmt.Sprintf("marker-strings-len<=%d", maxLen), total, func(i int) []iso.Outcome {
+			return []iso.Outcome{parseGuard("ParseMessageDefinition/string", str2(uint64(i), maxLen), nil)}
 		}}
 	}
 	strFam := func(maxLen int) fam {
@@ -373,9 +407,9 @@ func C19(r *chk.Run) {
 		}
 		return []iso.Outcome{parseGuard("ParseMessageDefinition/deep", renderGraph(types, deco), expectTree(types, 0))}
 	}}
-	fams := []fam{strFam(6), mutFam(quickSets), deepFam, graphFam("graphs-2fields-<=1dep", quickSets[:5], 2), graphFam("graphs-1field-<=3deps", fullSets, 1)}
+	fams := []fam{strFam(6), strFam2(6), mutFam(quickSets), deepFam, graphFam("graphs-2fields-<=1dep", quickSets[:5], 2), graphFam("graphs-1field-<=3deps", fullSets, 1)}
 	if r.Thorough() {
-		fams = []fam{strFam(7), mutFam(fullSets), deepFam, graphFam("graphs-1field-<=3deps", fullSets, 1), graphFam("graphs-3fields-<=1dep", quickSets[:5], 3), graphFam("graphs-2fields-<=2deps", quickSets, 2)}
+		fams = []fam{strFam(7), strFam2(8), mutFam(fullSets), deepFam, graphFam("graphs-1field-<=3deps", fullSets, 1), graphFam("graphs-3fields-<=1dep", quickSets[:5], 3), graphFam("graphs-2fields-<=2deps", quickSets, 2)}
 	}
 	for _, f := range fams {
 		replayIso(r, f.name, f.fn)
@@ -396,6 +430,8 @@ func C19(r *chk.Run) {
 		r.Count(f.name, res.Calls, res.Calls, res.Calls, res.Exhaustive, map[string]any{"index_space": f.n, "inputs_run": res.Calls, "outcome_classes": res.ByClass, "worker_restarts": res.Restarts, "not_reproducible_alone": len(res.NotRepro)})
 		reportBad(r, "C19", f.name, res, func(i int) any {
 			switch {
+			case strings.HasPrefix(f.name, "marker-strings"):
+				return map[string]any{"definition": str2(uint64(i), 8)}
 			case strings.HasPrefix(f.name, "strings"):
 				s, _ := shortString(uint64(i), 7)
 				return map[string]any{"definition": s}
